@@ -612,6 +612,24 @@ def gen_C01(rng, tier):
         parts.append("}")
         cases.append(dict(nm(f"big{sz}", [("f", "\n".join(parts))]), nomodel=sz > 6000))
         cases.append(dict(nm(f"bigsoup{sz}", [("f", char_soup(rng, sz // 4))]), nomodel=sz > 6000))
+    # histories: one result per id currently in the parser, after adds, replacements, removals (also of files that have no
+    # tree) and validations in between; compared with a fresh parser after every step
+    no_tree = ["", "garbage", "package p;", "package p; interface {", "interface I {}", "package p; interface I { void f(; }"]
+    for i in range(250 if tier == "quick" else 4000):
+        fs = gen.gen_project(rng)
+        texts = [t for _, t in gen.render_project(fs, rng)] + no_tree
+        pids = ["f%d" % j for j in range(rng.randint(2, 5))]
+        ops = []
+        for _ in range(rng.choice([3, 4, 6, 10])):
+            r = rng.random()
+            if r < 0.45:
+                ops.append(("add", rng.choice(pids), rng.choice(texts if rng.random() < 0.6 else no_tree)))
+            elif r < 0.7:
+                ops.append(("remove", rng.choice(pids)))
+            else:
+                ops.append(("validate",))
+        ops.append(("validate",))
+        cases.append({"name": f"h{i}", "ops": ops})
     return cases
 
 
